@@ -88,7 +88,7 @@ JitOnlyGrows == [][\A f \in AllF : jit[f] \subseteq jit'[f] /\
                      (hist' # hist => jit'[f] \ jit[f] \subseteq (IF f = hist'[Len(hist')].f THEN {hist'[Len(hist')].sig} ELSE {}))]_vars
 RepeatIdempotent == \A i, j \in 1..Len(hist) : hist[i] = hist[j] /\ hist[i].f \notin Unseeded => outs[i] = outs[j]
 DefaultIsExplicit == \A i, j \in 1..Len(hist) :
-                        /\ hist[i].f = hist[j].f /\ hist[i].sig = hist[j].sig /\ hist[i].f \notin Unseeded
-                        /\ Eff(hist[i].p) = Eff(hist[j].p) => outs[i] = outs[j]
+                        (/\ hist[i].f = hist[j].f /\ hist[i].sig = hist[j].sig /\ hist[i].f \notin Unseeded
+                         /\ Eff(hist[i].p) = Eff(hist[j].p)) => outs[i] = outs[j]
 TypeOK == Len(hist) = Len(outs) /\ Len(hist) <= MAXLEN
 =============================================================================
